@@ -385,6 +385,9 @@ func (tbls *TBLS) combineShares() []byte {
 		share := tbls.shares[party]
 		tbls.sk = tbls.sk.Plus(share)
 	}
+	// Plus does not reduce: keep the sum of the shares within the field, or it outgrows its 32 byte encoding
+	// once enough parties take part
+	tbls.sk.Mod(c.GroupOrder)
 
 	pk := c.GenG2.Mul(tbls.sk).Bytes()
 	tbls.publicKeysOfParties[tbls.Party] = pk
